@@ -535,7 +535,7 @@ func cmdCheck(args []string) int {
 			// the Go runtime itself took a fatal signal on a system stack (seen rarely in the -race build inside
 			// runtime.(*timer).modify of a synctest bubble); a nil dereference in lal is a Go panic, not this. It says
 			// nothing about lal; the worker was restarted after that run
-			fmt.Fprintf(os.Stderr, "verifctl: note: the Go runtime aborted with a fatal signal at idx %d (no lal frame on the faulting stack); run skipped\n", c.idx)
+			fmt.Fprintf(os.Stderr, "verifctl: note: the Go runtime aborted with a fatal signal at idx %d (raw signal inside the runtime, not a Go panic); run skipped\n", c.idx)
 			continue
 		} else if !strings.Contains(c.log, "panic") && !strings.Contains(c.log, "fatal error") && !strings.HasPrefix(c.log, "STALL") {
 			harnessTrouble = append(harnessTrouble, fmt.Sprintf("worker died at idx %d without a Go panic:\n%s", c.idx, c.log))
@@ -649,7 +649,13 @@ func runtimeSignalAbort(log string) bool {
 	if e := strings.Index(stack, "\n\n"); e >= 0 {
 		stack = stack[:e]
 	}
-	return !strings.Contains(stack, "q191201771/lal/") && !strings.Contains(stack, "q191201771/naza/")
+	if !strings.Contains(stack, "q191201771/lal/") && !strings.Contains(stack, "q191201771/naza/") {
+		return true
+	}
+	// lal frames further up do not matter when the innermost frames are the runtime's own on a system stack: a nil
+	// dereference in Go code (lal has neither cgo nor assembly) is delivered as a Go panic, never as this raw signal dump
+	lines := strings.Split(stack, "\n")
+	return len(lines) > 1 && strings.HasPrefix(lines[1], "runtime.systemstack_switch(")
 }
 
 func envOr(k, d string) string {
